@@ -206,6 +206,61 @@ func checkC27(c *Ctx, r *Report) {
 			}
 		}
 		r.Check(okE && okG, r5, up, "expiry stamps", nil, "entry and group stamped with now+TTL", "an announcement does not refresh the entry's and the group's expiry with now+TTL")
+		// the clock is read while the group's write lock is held: announcements are
+		// serialised by that lock, so lastExpiresAt can only move forward; a time read
+		// before the lock can be older than one already stored by a concurrent caller
+		for _, fld := range []string{tPE + ".expiresAt", tPG + ".lastExpiresAt"} {
+			for _, st := range storesToField(up, fld) {
+				var nows []*ssa.Call
+				mentions(st.Val, func(v ssa.Value) bool {
+					if cl, isC := v.(*ssa.Call); isC && isClockNow(cl) {
+						nows = append(nows, cl)
+					}
+					return false
+				}, 8)
+				if len(nows) == 0 {
+					// the group stamp is usually copied from the entry stamp just stored
+					continue
+				}
+				okL := true
+				for _, nc := range nows {
+					if !lockHeldDeep(c, up, nc, tPG, 0) {
+						okL = false
+					}
+				}
+				r.Check(okL, r5, up, "clock read under the group lock ("+lastSeg(fld)+")", st, "Now() with the group's write lock held", "the expiry is computed from a clock reading taken before the group's write lock was acquired: two concurrent announcements can store their stamps in the opposite order of their clock readings, lastExpiresAt moves backwards and the cleanup drops a group that still holds an unexpired peer")
+			}
+		}
+		// a peer gets a list slot only when it has no entry in the map: otherwise
+		// one peer occupies two slots and is handed out twice
+		instrsOf(up, func(in ssa.Instruction) {
+			st, isSt := in.(*ssa.Store)
+			if !isSt {
+				return
+			}
+			fa, isFA := st.Addr.(*ssa.FieldAddr)
+			if !isFA {
+				return
+			}
+			if n, _ := fieldName(fa); n != tPG+".peerList" {
+				return
+			}
+			if !mentionsCall(st.Val, "builtin.append") {
+				return
+			}
+			miss := guardedBy(st, func(cond ssa.Value, val bool) int {
+				ex, isEx := cond.(*ssa.Extract)
+				if !isEx || ex.Index != 1 {
+					return 0
+				}
+				lk, isL := ex.Tuple.(*ssa.Lookup)
+				if !isL || !isPureLoadOf(lk.X, tPG+".peerMap") {
+					return 0
+				}
+				return tern(val, -1, 1)
+			})
+			r.Check(miss, r5, up, "new list slot only for an unknown peer", st, "append on the lookup-miss side", "a peer that already has an entry in the group's map is appended to the peer list again (e.g. when its old entry expired): it occupies two slots and is handed out twice")
+		})
 	}
 	_ = token.ADD
 }
